@@ -483,7 +483,7 @@ Lemma subclass_shape : forall s parent name fs s' n,
     lookup s parent = Some rp /\ c_kind rp = KComplex /\ c_orig rp = None /\
     all_valid s fs = true /\ distinct_keys fs = true /\
     (ex = None \/ ex = Some (Some parent)) /\
-    (ex = None <-> c_fields rp = []) /\
+    (ex = None <-> real_base s parent rp = false) /\
     n = size s /\
     s' = fst (alloc s (mkcls KComplex (Some parent) [] (Some (TStr name)) None ex (od_update [] fs))).
 Proof.
@@ -492,14 +492,15 @@ Proof.
   destruct (c_kind rp) eqn:K; try discriminate.
   destruct (all_valid s fs && distinct_keys fs) eqn:V; simpl in H; try discriminate.
   apply andb_true_iff in V. destruct V as [V1 V2].
-  destruct (c_orig rp) eqn:O.
-  - destruct (c_fields rp); discriminate.
-  - exists rp. exists (match c_fields rp with [] => None | _ => Some (Some parent) end).
+  destruct (real_base s parent rp) eqn:RB; destruct (c_orig rp) eqn:O; try discriminate.
+  - exists rp, (Some (Some parent)).
     split; [reflexivity |]. split; [exact K |]. split; [exact O |].
-    split; [exact V1 |]. split; [exact V2 |].
-    split; [destruct (c_fields rp); auto |].
-    split; [destruct (c_fields rp); split; intros; auto; discriminate |].
-    inversion H. auto.
+    split; [exact V1 |]. split; [exact V2 |]. split; [right; reflexivity |].
+    split; [rewrite RB; split; intros; discriminate |]. inversion H. auto.
+  - exists rp, None.
+    split; [reflexivity |]. split; [exact K |]. split; [exact O |].
+    split; [exact V1 |]. split; [exact V2 |]. split; [left; reflexivity |].
+    split; [rewrite RB; split; intros; reflexivity |]. inversion H. auto.
 Qed.
 
 Lemma subclass_ok : forall s parent name fs s' n,
